@@ -79,35 +79,36 @@ func class(format string) *regexp.Regexp {
 
 // expected maps each breaking edit to the message classes of which at least one must be reported with continue-on-errors.
 var expected = map[string][]*regexp.Regexp{
-	"dupOperationID":               {class(validate.NonUniqueOperationIDError)},
-	"pathParamNotInTemplate":       {class(validate.PathParamNotInPathError)},
-	"placeholderWithoutParam":      {class(validate.NoParameterInPathError)},
-	"placeholderRepeatedAdjacent":  {class(validate.PathParamNotUniqueError)},
-	"placeholderRepeatedApart":     {class(validate.PathParamNotUniqueError)},
-	"pathParamNotRequired":         {class(validate.PathParamRequiredError)},
-	"dupParamInline":               {class(validate.DuplicateParamNameError)},
-	"dupParamViaShared":            {class(validate.DuplicateParamNameError)},
-	"twoBodyParams":                {class(validate.MultipleBodyParamError)},
-	"bodyAndForm":                  {class(validate.BothFormDataAndBodyError)},
-	"paramArrayNoItems":            {class(validate.ArrayInParamRequiresItemsError)},
-	"paramNestedArrayNoItems":      {class(validate.ArrayInParamRequiresItemsError)},
-	"headerArrayNoItems":           {class(validate.ArrayInHeaderRequiresItemsError)},
-	"schemaArrayNoItems":           {class(validate.ArrayRequiresItemsError)},
-	"requiredUndefined":            {class(validate.RequiredButNotDefinedError)},
-	"unresolvableDefinitionRef":    {class(validate.UnresolvedReferencesError), class(validate.CannotResolveReferenceError), class(validate.InvalidReferenceError)},
-	"unresolvableParameterRef":     {class(validate.UnresolvedReferencesError), class(validate.CannotResolveReferenceError), class(validate.InvalidReferenceError)},
-	"unresolvableResponseRef":      {class(validate.UnresolvedReferencesError), class(validate.CannotResolveReferenceError), class(validate.InvalidReferenceError)},
-	"dupInheritedProperty":         {class(validate.DuplicatePropertiesError)},
-	"circularAncestry":             {class(validate.CircularAncestryDefinitionError)},
-	"overlappingPaths":             {class(validate.PathOverlapError)},
-	"invalidPatternParam":          {class(validate.InvalidPatternInParamError)},
-	"invalidPatternHeader":         {class(validate.InvalidPatternInHeaderError)},
-	"invalidPatternNonStringParam": {class(validate.InvalidPatternInParamError)},
-	"unresolvableAllOfRef":         {class(validate.UnresolvedReferencesError), class(validate.CannotResolveReferenceError), class(validate.InvalidReferenceError)},
-	"invalidPatternSchema":         {class(validate.InvalidPatternInError), class(validate.InvalidPatternError)},
-	"invalidPatternItems":          {class(validate.InvalidItemsPatternError)},
-	"missingPaths":                 {class(validate.NoValidPathErrorOrWarning)},
-	"emptyPlaceholder":             {class(validate.EmptyPathParameterError)},
+	"dupOperationID":                  {class(validate.NonUniqueOperationIDError)},
+	"pathParamNotInTemplate":          {class(validate.PathParamNotInPathError)},
+	"placeholderWithoutParam":         {class(validate.NoParameterInPathError)},
+	"placeholderRepeatedAdjacent":     {class(validate.PathParamNotUniqueError)},
+	"placeholderRepeatedApart":        {class(validate.PathParamNotUniqueError)},
+	"pathParamNotRequired":            {class(validate.PathParamRequiredError)},
+	"dupParamInline":                  {class(validate.DuplicateParamNameError)},
+	"dupParamViaShared":               {class(validate.DuplicateParamNameError)},
+	"twoBodyParams":                   {class(validate.MultipleBodyParamError)},
+	"bodyAndForm":                     {class(validate.BothFormDataAndBodyError)},
+	"paramArrayNoItems":               {class(validate.ArrayInParamRequiresItemsError)},
+	"paramNestedArrayNoItems":         {class(validate.ArrayInParamRequiresItemsError)},
+	"headerArrayNoItems":              {class(validate.ArrayInHeaderRequiresItemsError)},
+	"schemaArrayNoItems":              {class(validate.ArrayRequiresItemsError)},
+	"requiredUndefined":               {class(validate.RequiredButNotDefinedError)},
+	"unresolvableDefinitionRef":       {class(validate.UnresolvedReferencesError), class(validate.CannotResolveReferenceError), class(validate.InvalidReferenceError)},
+	"unresolvableParameterRef":        {class(validate.UnresolvedReferencesError), class(validate.CannotResolveReferenceError), class(validate.InvalidReferenceError)},
+	"unresolvableResponseRef":         {class(validate.UnresolvedReferencesError), class(validate.CannotResolveReferenceError), class(validate.InvalidReferenceError)},
+	"dupInheritedProperty":            {class(validate.DuplicatePropertiesError)},
+	"dupInheritedPropertyBesideAllOf": {class(validate.DuplicatePropertiesError)},
+	"circularAncestry":                {class(validate.CircularAncestryDefinitionError)},
+	"overlappingPaths":                {class(validate.PathOverlapError)},
+	"invalidPatternParam":             {class(validate.InvalidPatternInParamError)},
+	"invalidPatternHeader":            {class(validate.InvalidPatternInHeaderError)},
+	"invalidPatternNonStringParam":    {class(validate.InvalidPatternInParamError)},
+	"unresolvableAllOfRef":            {class(validate.UnresolvedReferencesError), class(validate.CannotResolveReferenceError), class(validate.InvalidReferenceError)},
+	"invalidPatternSchema":            {class(validate.InvalidPatternInError), class(validate.InvalidPatternError)},
+	"invalidPatternItems":             {class(validate.InvalidItemsPatternError)},
+	"missingPaths":                    {class(validate.NoValidPathErrorOrWarning)},
+	"emptyPlaceholder":                {class(validate.EmptyPathParameterError)},
 }
 
 func anyMatch(res []*regexp.Regexp, msgs []string) bool {
